@@ -239,3 +239,84 @@ pub fn cache_probe(bin: &str, out_path: &str) -> eyre::Result<()> {
     f.flush()?;
     Ok(())
 }
+
+/// db-reader-pinned: a reader process whose open read transaction sits on WAL read mark `k` (k overlapping read
+/// transactions begun at k different WAL positions, the first k-1 finished).  It reads table a, announces itself, waits for
+/// the restore (or a few seconds), reads table b in the SAME transaction and reports both generations.
+pub fn reader_pinned(db: &str, k: usize, dir: &str) -> eyre::Result<()> {
+    let dir = std::path::PathBuf::from(dir);
+    let writer = rusqlite::Connection::open(db)?;
+    let mut readers = vec![];
+    for n in 1..=k {
+        writer.execute("UPDATE ticks SET n = ? WHERE id = 1", [n as i64])?;
+        let r = rusqlite::Connection::open(db)?;
+        r.execute_batch("BEGIN")?;
+        let _seen: i64 = r.query_row("SELECT n FROM ticks", [], |row| row.get(0))?;
+        readers.push(r);
+    }
+    for r in &readers[..k - 1] {
+        r.execute_batch("COMMIT")?;
+    }
+    let last = &readers[k - 1];
+    let gen_a: i64 = last.query_row("SELECT generation FROM a", [], |row| row.get(0))?;
+    std::fs::write(dir.join("reader-ready"), b"")?;
+    for _ in 0..80 {
+        if dir.join("restore-done").exists() {
+            break;
+        }
+        std::thread::sleep(Duration::from_millis(50));
+    }
+    let gen_b = match last.query_row("SELECT generation FROM b", [], |row| row.get::<_, i64>(0)) {
+        Ok(g) => g.to_string(),
+        Err(e) => format!("refused: {e}"),
+    };
+    let _ = last.execute_batch("COMMIT");
+    println!("{gen_a} {gen_b}");
+    Ok(())
+}
+
+/// restore-pin-probe: for every read mark k the real `corrosion restore` runs while a reader process is pinned on it.
+pub fn pin_probe(bin: &str, out_path: &str) -> eyre::Result<()> {
+    let seed = |p: &std::path::Path, generation: i64| -> rusqlite::Result<()> {
+        let c = rusqlite::Connection::open(p)?;
+        c.execute_batch("PRAGMA journal_mode = WAL; CREATE TABLE a (generation INTEGER); CREATE TABLE b (generation INTEGER); CREATE TABLE ticks (id INTEGER PRIMARY KEY, n INTEGER); INSERT INTO ticks VALUES (1, 0);")?;
+        c.execute("INSERT INTO a VALUES (?)", [generation])?;
+        c.execute("INSERT INTO b VALUES (?)", [generation])?;
+        // some bulk so that a and b live on different pages than anything cached by the first read
+        c.execute_batch("CREATE TABLE pad (x TEXT); WITH RECURSIVE c(i) AS (SELECT 1 UNION ALL SELECT i + 1 FROM c WHERE i < 300) INSERT INTO pad SELECT printf('%0300d', i) FROM c; PRAGMA wal_checkpoint(TRUNCATE);")?;
+        Ok(())
+    };
+    let me = std::env::current_exe()?;
+    let mut cases = vec![];
+    for k in 1..=4usize {
+        let dir = fresh_dir("pinprobe");
+        let conf = write_conf(&dir)?;
+        let dst = dir.join("corrosion.db");
+        let src = dir.join("snapshot.db");
+        seed(&dst, 1)?;
+        seed(&src, 2)?;
+        let child = Command::new(&me).arg("db-reader-pinned").arg(&dst).arg(k.to_string()).arg(&dir).stdout(std::process::Stdio::piped()).stderr(std::process::Stdio::piped()).spawn()?;
+        let mut ready = false;
+        for _ in 0..400 {
+            if dir.join("reader-ready").exists() {
+                ready = true;
+                break;
+            }
+            std::thread::sleep(Duration::from_millis(25));
+        }
+        let before = std::fs::read(&dst)?;
+        let t0 = std::time::Instant::now();
+        let (ok, log) = run_bin(bin, &conf, &["restore", src.to_str().unwrap()]);
+        let took = t0.elapsed().as_millis() as u64;
+        std::fs::write(dir.join("restore-done"), b"")?;
+        let o = child.wait_with_output()?;
+        let report = String::from_utf8_lossy(&o.stdout).trim().to_string();
+        let untouched_if_failed = if ok { None } else { Some(std::fs::read(&dst)? == before) };
+        cases.push(json!({"read_mark": k, "reader_ready": ready, "restore_ok": ok, "restore_ms": took, "reader_report": report, "reader_stderr": String::from_utf8_lossy(&o.stderr).chars().take(300).collect::<String>(),
+                          "untouched_if_failed": untouched_if_failed, "log": log}));
+    }
+    let mut f = std::io::BufWriter::new(std::fs::File::create(out_path)?);
+    writeln!(f, "{}", json!({"cases": cases}))?;
+    f.flush()?;
+    Ok(())
+}
